@@ -177,6 +177,9 @@ func vRender(v any) string {
 }
 
 func vYield(key int)      {}
+
+// vQuiesce waits until every other goroutine has finished or is blocked.
+func vQuiesce() { time.Sleep(50 * time.Millisecond) }
 func vConsumed(n int)     {}
 func vSymbolic() bool     { return false }
 func vExpectPanic()       {}
